@@ -15,7 +15,9 @@ theorem retry_len (n : Nat) (O : Oracle) (pr : Probe) (cont : Out → Bool) :
   · simp
   · split
     · simp
-    · simp; omega
+    · split
+      · simp
+      · simp; omega
 
 theorem retry_some {n : Nat} {O : Oracle} {pr : Probe} {cont : Out → Bool} {o : Out} {tr : List Probe}
     (h : retry n O pr cont = (some o, tr)) : o = O pr ∧ cont (O pr) = false := by
@@ -23,10 +25,18 @@ theorem retry_some {n : Nat} {O : Oracle} {pr : Probe} {cont : Out → Bool} {o 
   split at h
   · simp at h
   · split at h
-    · simp at h
-    · rename_i hc
-      simp at h
-      exact ⟨h.1.symm, by simpa using hc⟩
+    · rename_i hx
+      split at h
+      · simp at h
+      · rename_i hc
+        simp at h
+        rw [hx]
+        exact ⟨h.1.symm, by simpa using hc⟩
+    · split at h
+      · simp at h
+      · rename_i hc
+        simp at h
+        exact ⟨h.1.symm, by simpa using hc⟩
 
 /-! ### AutoDetectQueryType -/
 
@@ -344,11 +354,12 @@ theorem downDetect_len (O : Oracle) (cfg : Cfg) (st : St) :
 
 /-- repaired shape: a downstream codec other than Base32 was either forced by the record type or passed
     its test in the state it will be used in -/
-theorem downDetect_sound (O : Oracle) (cfg : Cfg) (hr : cfg.rawOnSuccess = true) (hm : cfg.downMismatchIsError = true)
+theorem downDetect_sound (O : Oracle) (cfg : Cfg) (hr : cfg.rawOnSuccess = true) (ha : cfg.downAlwaysAssigned = true)
+    (hm : cfg.downMismatchIsError = true)
     (st : St) (d : Codec) (h : (downDetect O cfg st).1 = some d) (hq : st.q ∉ cfg.downRawTypes) (hd : d ≠ .b32) :
     O (st.probe (.y d)) = .k := by
   unfold downDetect at h
-  simp only [hq, if_false, hr, if_true] at h
+  simp only [hq, if_false, hr, ha, if_true] at h
   have hl := downLoop_sound O cfg st cfg.downOrder .b32
   split at h
   · simp at h
